@@ -13,16 +13,16 @@ use std::collections::BTreeMap;
 use std::sync::atomic::{AtomicU64, Ordering};
 use std::sync::{Mutex, OnceLock};
 
-/// (fuzz target, property id, maximum input length, what the bytes mean)
-pub const TARGETS: &[(&str, &str, usize, &str)] = &[
-    ("c02_request", "C02", 512, "bytes 0..32 key the request generator (ChaCha), the rest is the read plan (one read size per byte)"),
-    ("c03_parsers", "C03", 4096, "byte 0 = parser (request, response, frame, JSON, config), byte 1 = delivery (all at once / byte by byte), rest = input"),
-    ("c05_glob", "C05", 64, "byte 0 = split position, rest = pattern ++ text (lossy UTF-8)"),
-    ("c07_response", "C07", 768, "byte 0 = side; wire side: bytes 1..33 key the response generator, the rest is the read plan; builder side: the bytes key the builder-spec generator"),
-    ("c10_frames", "C10", 600, "byte 0 = mode: raw bytes decoded under a read plan, or read plan + a frame decoded from the bytes (flags, opcode, mask, boundary lengths, payload)"),
-    ("c13_json", "C13", 1024, "byte 0 = mode: the rest is a JSON text candidate (lossy UTF-8), or a JSON value decoded from the bytes (serialise / parse round trip)"),
-    ("c16_cache", "C16", 1024, "cache size limit, time limit and an operation sequence (set/get, key, host, size) decoded from the bytes"),
-    ("c18_codecs", "C18", 256, "byte 0 = codec (SHA-1, Base64 encode/decode, percent encode/decode, date), rest = input"),
+/// (fuzz target, property id, maximum input length, what the bytes mean, runs per job in the thorough tier)
+pub const TARGETS: &[(&str, &str, usize, &str, u64)] = &[
+    ("c02_request", "C02", 512, "bytes 0..32 key the request generator (ChaCha), the rest is the read plan (one read size per byte)", 60000),
+    ("c03_parsers", "C03", 4096, "byte 0 = parser (request, response, frame, JSON, config), byte 1 = delivery (all at once / byte by byte), rest = input", 600000),
+    ("c05_glob", "C05", 64, "byte 0 = split position, rest = pattern ++ text (lossy UTF-8)", 1500000),
+    ("c07_response", "C07", 768, "byte 0 = side; wire side: bytes 1..33 key the response generator, the rest is the read plan; builder side: the bytes key the builder-spec generator", 60000),
+    ("c10_frames", "C10", 600, "byte 0 = mode: raw bytes decoded under a read plan, or read plan + a frame decoded from the bytes (flags, opcode, mask, boundary lengths, payload)", 300000),
+    ("c13_json", "C13", 1024, "byte 0 = mode: the rest is a JSON text candidate (lossy UTF-8), or a JSON value decoded from the bytes (serialise / parse round trip)", 400000),
+    ("c16_cache", "C16", 1024, "cache size limit, time limit and an operation sequence (set/get, key, host, size) decoded from the bytes", 150000),
+    ("c18_codecs", "C18", 256, "byte 0 = codec (SHA-1, Base64 encode/decode, percent encode/decode, date), rest = input", 1000000),
 ];
 
 pub fn property_of(target: &str) -> Option<&'static str> {
